@@ -196,7 +196,11 @@ fn depth_sort<A>(tris: &mut [Tri<ClipVert<A>>], d: DepthSort) {
 }
 
 fn is_backface<V>(vs: &[Vertex<ScreenPt, V>]) -> bool {
-    let v = vs[1].pos - vs[0].pos;
-    let u = vs[2].pos - vs[0].pos;
-    v[0] * u[1] - v[1] * u[0] > 0.0
+    // In double precision the differences and their products are exact.
+    // In single precision the cross product of a thin sliver can round to
+    // zero, which made it face the viewer in both of its vertex orders
+    let [x0, y0, _] = vs[0].pos.0.map(f64::from);
+    let [x1, y1, _] = vs[1].pos.0.map(f64::from);
+    let [x2, y2, _] = vs[2].pos.0.map(f64::from);
+    (x1 - x0) * (y2 - y0) - (y1 - y0) * (x2 - x0) > 0.0
 }
